@@ -48,7 +48,7 @@ T0 = W.T0
 MODES = ("co1", "co5", "alone", "alone1h", "alone4h")
 # one block of the per-shard schedule: cost-balanced (a co1 run is ~10x an alone run)
 BLOCK = ("co1", "alone", "alone1h", "alone4h", "co5", "alone", "alone1h", "alone4h", "co5", "alone", "alone4h", "alone1h")
-MONEY = ("deep-itm", "itm", "thin-flat", "thin-flat", "thin-cap", "thin-cap", "atm", "otm", "otm-near", "deep-otm")
+MONEY = ("deep-itm", "extreme-itm", "itm", "thin-flat", "thin-flat", "thin-cap", "thin-cap", "atm", "otm", "otm-near", "deep-otm")
 PHASES3 = ("before_bar", "on_bar", "after_bar")
 
 
@@ -166,6 +166,10 @@ class World:
             mny = sp["money"]
             if mny == "deep-itm":
                 d = Sref * rng.uniform(0.05, 0.3)
+            elif mny == "extreme-itm":
+                # a put whose strike is a multiple of the underlying pays more than one coin per contract ((K-S)/S > 1);
+                # a call can at most approach one coin (strike near zero)
+                d = Sref * (rng.uniform(1.0, 3.0) if sp["kind"] == "PUT" else rng.uniform(0.5, 0.99))
             elif mny == "itm":
                 d = Sref * rng.uniform(0.002, 0.05)
             elif mny == "thin-flat":
